@@ -70,8 +70,8 @@ def mk(codes, signed, n, f, dirty_ok=False, **cfg):
     Small-word operands are reached through a content-determined history (see empty_via_history); histories 6 and 7 obtain the
     operand from a larger object: 6 = an element / a slice of a longer array, 7 = flatten() of a 2-D array (and its element)."""
     h = hist_of(n, f, int(signed), len(codes), *[c % 97 for c in codes[:4]]) if n <= 60 else 0
-    if h in (6, 7) and ('op_out' in cfg or 'op_out_like' in cfg):
-        h = 1       # indexing / flatten deep-copy the configuration, so an op_out target would (rightly) be a copy: not this route
+    if h in (6, 7, 11) and ('op_out' in cfg or 'op_out_like' in cfg):
+        h = 1       # indexing / flatten / a keep-mode shift deep-copy the configuration, so an op_out target would (rightly) be a copy: not this route
     if h in (8, 9):
         return primed(h, codes, signed, n, f, **cfg)
     if h == 11 and 'shifting' not in cfg:
